@@ -27,6 +27,7 @@ type Options struct {
 	Prefer           []string // variables to favour
 	Scope            Scope    // nil = NewScope
 	Forbidden        []string // texts that must not appear in the source (see Gen.Forbidden)
+	NoBlockAttrs     bool     // bodies: no hcldec.BlockAttrsSpec items
 }
 
 // NewCase draws a scope and a typed expression over it, renders and parses it. ok=false when the
